@@ -38,6 +38,18 @@ type HIDIConfigRaw struct {
 	} `toml:"HIDI"`
 }
 
+// unmarshalHIDIConfig decodes hidi.toml. The decoder panics instead of returning an error for some well-formed
+// values of the wrong kind (e.g. a date where a number is expected); that is reported as an error like any other.
+func unmarshalHIDIConfig(data []byte, raw *HIDIConfigRaw) (err error) {
+	defer func() {
+		if r := recover(); r != nil {
+			err = fmt.Errorf("decoder failed: %v", r)
+		}
+	}()
+
+	return toml.Unmarshal(data, raw)
+}
+
 func LoadHIDIConfig(path string) (HIDIConfig, error) {
 	data, err := os.ReadFile(path)
 	if err != nil {
@@ -45,7 +57,7 @@ func LoadHIDIConfig(path string) (HIDIConfig, error) {
 	}
 
 	var rawConfig HIDIConfigRaw
-	err = toml.Unmarshal(data, &rawConfig)
+	err = unmarshalHIDIConfig(data, &rawConfig)
 	if err != nil {
 		return HIDIConfig{}, err
 	}
